@@ -9,7 +9,7 @@ use vh_common::{Args, Report, Rng};
 
 fn cond_vars(c: &Cond, out: &mut BTreeSet<usize>) {
     match c {
-        Cond::Truthy(x) | Cond::TypeIs(x, ..) | Cond::IsNil(x, ..) => {
+        Cond::Truthy(x) | Cond::TypeIs(x, ..) | Cond::IsNil(x, ..) | Cond::EqLit(x, ..) | Cond::Stored(x, ..) => {
             out.insert(*x);
         }
         Cond::Not(c) => cond_vars(c, out),
@@ -67,6 +67,9 @@ fn reads(b: &[Stmt], out: &mut BTreeSet<usize>) {
             }
             Stmt::WhileTrue(x) | Stmt::ForNum(_, _, x) | Stmt::ForIn(_, x) => reads(x, out),
             Stmt::BreakIf(c) => cond_vars(c, out),
+            Stmt::Use(x) => {
+                out.insert(*x);
+            }
             Stmt::Assign(..) => {}
         }
     }
@@ -121,6 +124,12 @@ fn scan(b: &[Stmt], after: &BTreeSet<usize>, f: &mut Found) {
 
 /// Known-finding classifier (input program only). Order: the documented `while` defect first.
 pub fn classify(p: &Prog) -> Option<&'static str> {
+    // C15 finding: a stored `type(v)` is tested after `v` may have been reassigned
+    let mut all_assigned = BTreeSet::new();
+    assigned(&p.body, &mut all_assigned);
+    if p.stored_vars().iter().any(|x| all_assigned.contains(x)) {
+        return Some("stored-type-guard-on-reassigned-variable");
+    }
     let mut f = Found::default();
     scan(&p.body, &BTreeSet::new(), &mut f);
     if f.while_exit {
@@ -150,6 +159,181 @@ pub fn inert_loops(p: &Prog) -> bool {
     b(&p.body)
 }
 
+/// C41 programs keep stored-type guards only on variables that are never assigned (the stale-stored-type defect
+/// is a C15 finding and is searched there); the others become direct `type(v)` guards
+fn sanitize_stored(p: &mut Prog) {
+    fn c(c0: &mut Cond, bad: &BTreeSet<usize>) {
+        match c0 {
+            Cond::Stored(x, t, neg) if bad.contains(x) => *c0 = Cond::TypeIs(*x, *t, *neg, false),
+            Cond::Not(i) => c(i, bad),
+            Cond::And(a, b) | Cond::Or(a, b) => {
+                c(a, bad);
+                c(b, bad);
+            }
+            _ => {}
+        }
+    }
+    fn b(v: &mut [Stmt], bad: &BTreeSet<usize>) {
+        for s in v {
+            match s {
+                Stmt::If(c0, t, ei, e) => {
+                    c(c0, bad);
+                    b(t, bad);
+                    for (ci, x) in ei {
+                        c(ci, bad);
+                        b(x, bad);
+                    }
+                    if let Some(x) = e {
+                        b(x, bad);
+                    }
+                }
+                Stmt::While(c0, x) | Stmt::Repeat(x, c0) => {
+                    c(c0, bad);
+                    b(x, bad);
+                }
+                Stmt::WhileTrue(x) | Stmt::ForNum(_, _, x) | Stmt::ForIn(_, x) => b(x, bad),
+                Stmt::BreakIf(c0) => c(c0, bad),
+                _ => {}
+            }
+        }
+    }
+    let mut a = BTreeSet::new();
+    assigned(&p.body, &mut a);
+    b(&mut p.body, &a);
+}
+
+fn has_break(b: &[Stmt]) -> bool {
+    b.iter().any(|s| match s {
+        Stmt::BreakIf(_) => true,
+        Stmt::If(_, t, ei, e) => has_break(t) || ei.iter().any(|(_, x)| has_break(x)) || e.as_ref().is_some_and(|x| has_break(x)),
+        // a break inside a nested loop leaves only that loop
+        _ => false,
+    })
+}
+
+/// the variable a loop's exit condition proves non-nil: `while not x`, `while x == nil`, `while type(x) ~= "string"`,
+/// `repeat … until x`, `until x ~= nil`, `until type(x) == "string"` — provided the loop has no `break`
+fn exit_proves_non_nil(s: &Stmt) -> Option<usize> {
+    match s {
+        Stmt::While(c, body) if !has_break(body) => match c {
+            Cond::Not(i) => match **i {
+                Cond::Truthy(x) => Some(x),
+                _ => None,
+            },
+            Cond::IsNil(x, false, _) => Some(*x),
+            Cond::TypeIs(x, 3, true, _) => Some(*x),
+            _ => None,
+        },
+        Stmt::Repeat(body, c) if !has_break(body) => match c {
+            Cond::Truthy(x) => Some(*x),
+            Cond::IsNil(x, true, _) => Some(*x),
+            Cond::TypeIs(x, 3, false, _) => Some(*x),
+            _ => None,
+        },
+        _ => None,
+    }
+}
+
+/// insert `local _u = v:upper()` right after every loop whose exit condition proves `v` non-nil
+fn insert_uses(b: &[Stmt], n: &mut usize) -> Vec<Stmt> {
+    let mut out = Vec::new();
+    for s in b {
+        let s2 = match s {
+            Stmt::If(c, t, ei, e) => Stmt::If(
+                c.clone(),
+                insert_uses(t, n),
+                ei.iter().map(|(c, x)| (c.clone(), insert_uses(x, n))).collect(),
+                e.as_ref().map(|x| insert_uses(x, n)),
+            ),
+            Stmt::While(c, x) => Stmt::While(c.clone(), insert_uses(x, n)),
+            Stmt::WhileTrue(x) => Stmt::WhileTrue(insert_uses(x, n)),
+            Stmt::Repeat(x, c) => Stmt::Repeat(insert_uses(x, n), c.clone()),
+            Stmt::ForNum(a, z, x) => Stmt::ForNum(*a, *z, insert_uses(x, n)),
+            Stmt::ForIn(k, x) => Stmt::ForIn(*k, insert_uses(x, n)),
+            other => other.clone(),
+        };
+        let proved = exit_proves_non_nil(s);
+        out.push(s2);
+        if let Some(x) = proved {
+            out.push(Stmt::Use(x));
+            *n += 1;
+        }
+    }
+    out
+}
+
+thread_local! {
+    static STD_WS: std::cell::RefCell<Option<emmylua_code_analysis::VirtualWorkspace>> = const { std::cell::RefCell::new(None) };
+}
+
+/// The property's diagnostics clause: correct code of the form `<loop whose exit proves v non-nil>; v:upper()` must
+/// not get `need-check-nil` / a call on `never` for `v`. "Correct" = the VM runs the extended program without error.
+pub fn diagnostics_oracle(p: &Prog, report: &mut Report) {
+    let mut n = 0;
+    let body = insert_uses(&p.body, &mut n);
+    if n == 0 {
+        return;
+    }
+    let ext = Prog { decls: p.decls.clone(), body };
+    let Some(executed) = interp::uses_ok(&ext, 2_000) else {
+        report.count("diag_oracle_skipped_use_on_non_string");
+        return;
+    };
+    let r = ext.render();
+    if crate::real::run_vm(&r.lua).is_err() {
+        report.count("diag_oracle_skipped_vm_error");
+        return;
+    }
+    if !executed.iter().any(|e| *e) {
+        report.count("diag_oracle_skipped_no_use_executed");
+        return;
+    }
+    report.count("diag_oracle_programs");
+    report.add("diag_oracle_uses_executed", executed.iter().filter(|e| **e).count() as u64);
+    // only uses that were executed (in document order = line order) are "correct code"
+    let use_lines: Vec<u32> = r
+        .lua
+        .lines()
+        .enumerate()
+        .filter(|(_, l)| l.contains(":upper()"))
+        .map(|(i, _)| i as u32)
+        .zip(executed.iter())
+        .filter(|(_, e)| **e)
+        .map(|(i, _)| i)
+        .collect();
+    let diags = STD_WS.with(|w| {
+        let mut w = w.borrow_mut();
+        let ws = w.get_or_insert_with(emmylua_code_analysis::VirtualWorkspace::new_with_init_std_lib);
+        crate::real::diagnostics_in(ws, &r.lua)
+    });
+    let bad: Vec<&(String, String, u32)> = diags
+        .iter()
+        .filter(|(code, msg, line)| {
+            // the property's clause: the *variable* is reported nil-able, or the call is on `never`
+            use_lines.contains(line)
+                && ((code == "need-check-nil" && msg.starts_with('v') && msg.ends_with(" may be nil") && !msg.contains(':'))
+                    || (code == "call-non-callable" && msg.contains("`never`")))
+        })
+        .collect();
+    if let Some((code, msg, line)) = bad.first() {
+        let class = classify(&ext);
+        let key = format!("diag_oracle_fail_class_{}", class.unwrap_or("none"));
+        report.count(&key);
+        let v = serde_json::json!({
+            "input": {"tokens": p.render().tokens, "lua": r.lua, "diagnostics_oracle": true},
+            "class": class,
+            "what": format!("correct loop code gets `{code}` ({msg}) at line {} for a variable the loop's exit condition proves non-nil", line + 1),
+        });
+        if class.is_none() {
+            report.oracle_failures.insert(0, v);
+            report.oracle_failures.truncate(50);
+            report.count("oracle_failures_total");
+        } else if report.distribution.get(&key).copied().unwrap_or(0) <= 6 {
+            report.oracle_failure(v);
+        }
+    }
+}
+
 pub fn corpus() -> Vec<&'static str> {
     vec![
         // the documented defect: local k=nil; while not k do k='x' end; p(k)
@@ -171,10 +355,14 @@ pub fn run(args: &Args, report: &mut Report) {
         let v: serde_json::Value = serde_json::from_str(&std::fs::read_to_string(path).expect("replay file")).expect("json");
         let toks = v["input"]["tokens"].as_str().expect("input.tokens");
         let p = prog::parse_tokens(toks).expect("tokens parse");
+        diagnostics_oracle(&p, report);
         c15::run_batch(&[p], report, &mut seen, "C41");
         return;
     }
     let corpus: Vec<Prog> = corpus().iter().map(|t| prog::parse_tokens(t).expect("corpus parses")).collect();
+    for p in &corpus {
+        diagnostics_oracle(p, report);
+    }
     c15::run_batch(&corpus, report, &mut seen, "C41");
     let mut rng = Rng::new(args.seed);
     let n = if args.thorough() { 200_000 } else { 2_500 };
@@ -188,7 +376,8 @@ pub fn run(args: &Args, report: &mut Report) {
             1 => GenCfg { max_vars: 2, max_depth: 3, max_block: 3, logic: true, loops: true },
             _ => GenCfg { max_vars: 3, max_depth: 3, max_block: 2, logic: false, loops: true },
         };
-        let p = prog::gen_prog(&mut rng, &cfg);
+        let mut p = prog::gen_prog(&mut rng, &cfg);
+        sanitize_stored(&mut p);
         if !p.has_loop() {
             continue;
         }
@@ -203,6 +392,7 @@ pub fn run(args: &Args, report: &mut Report) {
             Some(c) => report.count(&format!("class_{c}")),
             None => report.count("class_none"),
         }
+        diagnostics_oracle(&p, report);
         batch.push(p);
         if batch.len() == 500 {
             c15::run_batch(&batch, report, &mut seen, "C41");
